@@ -299,6 +299,18 @@ def run_harness(h, keep=False, extra_defines=()):
             dst, lm, fired = inject(tu, injs, scratch)
             linemaps[os.path.basename(dst)] = (tu, lm)
             res['injected'] += fired
+            if h.meta.get('include_tu'):
+                so = [plain(x) for x in h.meta.get('stub_out', [])]
+                if so:
+                    # include_tu mode: the stubbed-out callees keep their text but their definitions are renamed
+                    txt, done = cscan.rename_definitions(open(dst).read(), so)
+                    missing = [x for x in so if x not in done]
+                    if missing:
+                        raise Undecided('extraction break: stub_out functions not found in %s: %s' % (tu, missing))
+                    open(dst, 'w').write(txt)
+                    # line map: each renamed definition adds one prototype line block before it; recompute by marker
+                    res['renamed_definitions'] = done
+                continue
             gb = dst[:-2] + '.gb'
             cmd = ['goto-cc'] + inc + ['-I' + os.path.dirname(os.path.join(REPO, tu)), '--export-file-local-symbols', '-c', dst, '-o', gb]
             rc, out, err, dt = run(cmd, cwd=scratch, timeout=300)
@@ -319,7 +331,7 @@ def run_harness(h, keep=False, extra_defines=()):
             raise Undecided('injection for a file not in tus: %s' % unfired)
         for i, extra in enumerate([h.path] + [os.path.join(VERIF, e) for e in h.extra_src]):
             gb = os.path.join(scratch, 'hx%d.gb' % i)
-            rc, out, err, dt = run(['goto-cc'] + inc + ['-c', extra, '-o', gb], cwd=scratch, timeout=300)
+            rc, out, err, dt = run(['goto-cc'] + (['-I' + scratch] if h.meta.get('include_tu') else []) + inc + (['-DV_INCLUDE_TU', '--export-file-local-symbols'] + ['-I' + os.path.dirname(os.path.join(REPO, t)) for t in h.tus] if h.meta.get('include_tu') else []) + ['-c', extra, '-o', gb], cwd=scratch, timeout=300)
             if rc != 0:
                 raise Undecided('goto-cc failed on %s:\n%s' % (extra, (out + err)[-3000:]))
             gbs.append(gb)
@@ -333,7 +345,7 @@ def run_harness(h, keep=False, extra_defines=()):
                 if mo:
                     names.add(mo.group(1))
             defined.append(names)
-        n_tu = len(h.tus)
+        n_tu = 0 if h.meta.get('include_tu') else len(h.tus)
         tu_defs = set().union(*defined[:n_tu]) if n_tu else set()
         h_defs = set().union(*defined[n_tu:]) if defined[n_tu:] else set()
         clash = sorted(x for x in (tu_defs & h_defs) if not x.startswith('__CPROVER') and x not in ('v_streq',))
@@ -449,6 +461,26 @@ def run_harness(h, keep=False, extra_defines=()):
             for ig in h.ignore:
                 if ig.get('class', cls) == cls and ig.get('text_contains', '') in text and ig.get('desc_contains', '') in desc and kind == 'obligation':
                     kind = 'out-of-scope'
+            # a failing safety check inside CBMC's model of a libc function (strcmp, strlen, memcpy, ...) belongs to the
+            # real-code call site that handed it the bad pointer: attribute it through the trace
+            if kind == 'sanity' and f.startswith('<builtin-library-') and '__CPROVER_contracts' not in f and r_['status'] == 'FAILURE':
+                for st in reversed(r_.get('trace') or []):
+                    if st.get('stepType') == 'function-call':
+                        sl2 = st.get('sourceLocation', {})
+                        b2 = os.path.basename(sl2.get('file', ''))
+                        if b2 in linemaps:
+                            tu2, lm2 = linemaps[b2]
+                            l2 = int(sl2.get('line', 0) or 0)
+                            ol2 = lm2[l2 - 1] if 0 < l2 <= len(lm2) else l2
+                            if tu2 not in srcs:
+                                srcs[tu2] = src_lines(os.path.join(REPO, tu2))
+                            fn2 = unmangle(sl2.get('function', ''))
+                            if fn2 in real_fns or '*' in real_fns:
+                                kind = 'obligation'
+                                desc = '%s (inside %s called from here)' % (desc, fn)
+                                fn, ofile, oline = sl2.get('function', ''), tu2, ol2
+                                text = srcs[tu2][ol2 - 1].strip() if 0 < ol2 <= len(srcs[tu2]) else ''
+                            break
             fnp = unmangle(fn)
             group = '%s.%s' % (fnp, cls)
             if cls == 'assertion':
@@ -478,7 +510,10 @@ def run_harness(h, keep=False, extra_defines=()):
             raise Undecided('vacuity guard: expected obligation groups missing: %s' % missing)
         if not any(p['kind'] == 'obligation' for p in res['props']):
             raise Undecided('vacuity guard: harness generated zero obligations')
-        bad_sanity = [p for p in res['props'] if p['kind'] in ('sanity', 'unwind') and p['status'] != 'SUCCESS']
+        has_violation = any(p['kind'] == 'obligation' and p['status'] == 'FAILURE' for p in res['props'])
+        # UNKNOWN = CBMC did not decide a check because an earlier one on the same path already failed
+        bad_sanity = [p for p in res['props'] if p['kind'] in ('sanity', 'unwind') and p['status'] != 'SUCCESS'
+                      and not (has_violation and p['status'] == 'UNKNOWN')]
         if bad_sanity:
             res['status'] = 'undecided'
             res['detail'] = 'harness sanity / unwinding checks failed: ' + '; '.join(
